@@ -6,6 +6,8 @@
 4. validate  TLC re-executes Trace_HGX along every logged event (code -> spec)
 """
 import random
+import sys
+import time
 
 from harness import containers as C
 from harness import tlc
@@ -17,7 +19,7 @@ INV = ["TypeOK", "DegreeSum", "IncidentExact", "OncePerRole", "RemovedNodeGone",
 # exhaustive exploration configs per kind: (n, maxw, batches, metaops, xs)
 EXPLORE = {
     "quick": {
-        "hg": [(3, 2, False, False, None), (2, 2, True, True, None)],
+        "hg": [(3, 2, False, False, None), (2, 1, True, True, None)],
         "dir": [(3, 1, False, False, None)],
         "temp": [(2, 2, True, False, [0, 1])],
         "mux": [(2, 2, True, False, ["L1", "L2"])],
@@ -35,26 +37,42 @@ CC_CLAUSES = {"connected_components", "num_connected_components", "is_connected"
               "largest_component_size", "isolated_nodes", "node_connected_component", "is_isolated"}
 
 
-def explore(res, kind, tier):
+def explore(res, kind, tier, module="MC_HGX", invariants=INV, configs=None):
+    """exhaustive TLC runs; configs: list of dict(n, maxw, batches, metaops, xs, mvals, weighted)"""
     states = trans = 0
-    for (n, maxw, batches, metaops, xs) in EXPLORE[tier][kind]:
-        for weighted in (True, False):
-            if not weighted and maxw > 1 and tier == "quick" and not metaops:
-                continue
-            c = C.consts(kind, weighted, n=n, maxw=maxw, batches=batches, metaops=metaops, xs=xs)
-            cfg = tlc.cfg_text(c, invariants=INV, constraints=["Bound"])
-            r = tlc.run("MC_HGX", cfg, workers=16, timeout=1500, heap="8g")
-            if not tlc.ok_exploration(r):
-                raise tlc.TLCError("MC_HGX %s failed:\n%s" % (c, tlc.error_excerpt(r["out"])))
-            s = tlc.stats(r["out"])
-            states += s["distinct"]
-            trans += s["generated"]
+    runs = []
+    if configs is None:
+        configs = []
+        for (n, maxw, batches, metaops, xs) in EXPLORE[tier][kind]:
+            for weighted in (True, False):
+                if not weighted and maxw > 1 and tier == "quick" and not metaops:
+                    continue
+                configs.append(dict(n=n, maxw=maxw, batches=batches, metaops=metaops, xs=xs, weighted=weighted))
+    for cf_ in configs:
+        cf_ = dict(cf_)
+        weighted = cf_.pop("weighted", True)
+        c = C.consts(kind, weighted, **cf_)
+        cfg = tlc.cfg_text(c, invariants=invariants, constraints=["Bound"])
+        r = tlc.run(module, cfg, workers=16, timeout=2400, heap="8g")
+        if not tlc.ok_exploration(r):
+            raise tlc.TLCError("%s %s failed:\n%s" % (module, c, tlc.error_excerpt(r["out"])))
+        s = tlc.stats(r["out"])
+        states += s["distinct"]
+        trans += s["generated"]
+        runs.append({"module": module, "kind": kind, "weighted": weighted, "n": cf_.get("n"), "maxw": cf_.get("maxw"),
+                     "states": s["distinct"], "transitions": s["generated"], "wall_s": round(r["wall"], 1)})
     res.cov(states=states, transitions=trans)
+    res.coverage.setdefault("explorations", []).extend(runs)
+    res.coverage.setdefault("invariants", [])
+    for i in invariants:
+        if i not in res.coverage["invariants"]:
+            res.coverage["invariants"].append(i)
     return states, trans
 
 
 def behaviours(kind, weighted, tier, seed):
-    """list of (ops, n, origin)"""
+    """list of (ops, n, origin); the TLC runs are independent processes and run concurrently"""
+    import concurrent.futures as cf
     out = []
     rng = random.Random(seed * 7919 + (1 if weighted else 0))
     xs3 = {"temp": [0, 1, 2], "mux": ["L1", "L2"]}.get(kind)
@@ -66,51 +84,83 @@ def behaviours(kind, weighted, tier, seed):
         sims = [(3, 10, 40, 400), (3, 14, 30, 300), (4, 10, 10, 150)]
         exh = [(2, 3), (3, 2)]
         py = [(4, 16, 250), (5, 24, 150), (6, 30, 40)]
+    jobs = []
     for (n, depth, num, limit) in sims:
         if n >= 4 and kind != "hg":
             continue
-        b, _ = C.tlc_behaviours(kind, weighted, n=n, depth=depth, num=num, seed=seed + depth, limit=limit,
-                                xs=(xs3 if n <= 3 else None), batches=(n <= 3), timeout=1200)
-        out += [(ops, n, "tlc-simulate") for ops in b]
+        jobs.append(("tlc-simulate", n, dict(n=n, depth=depth, num=num, seed=seed + depth, limit=limit,
+                                             xs=(xs3 if n <= 3 else None), batches=(n <= 3), timeout=1200)))
     for (n, depth) in exh:
         # ALL histories of that length (BFS over Gen_HGX); a uniform sample when there are too many
-        b, info = C.tlc_behaviours(kind, weighted, n=n, depth=depth, seed=seed, exhaustive=True,
-                                   invalid_every=1, batches=(depth <= 2), metaops=(n == 2 and depth <= 2),
-                                   maxw=2 if weighted else 1,
-                                   xs=({"temp": [0, 1], "mux": ["L1", "L2"]}.get(kind)),
-                                   limit=(250 if tier == "quick" else 4000), timeout=1200)
-        out += [(ops, n, "tlc-bfs-depth%d" % depth) for ops in b]
+        jobs.append(("tlc-bfs-depth%d" % depth, n,
+                     dict(n=n, depth=depth, seed=seed, exhaustive=True, invalid_every=1, batches=(depth <= 2),
+                          metaops=(n == 2 and depth <= 2), maxw=2 if weighted else 1,
+                          xs=({"temp": [0, 1], "mux": ["L1", "L2"]}.get(kind)),
+                          limit=(250 if tier == "quick" else 4000), timeout=1200)))
+    with cf.ThreadPoolExecutor(max_workers=4) as ex:
+        futs = [(origin, n, ex.submit(C.tlc_behaviours, kind, weighted, **kw)) for origin, n, kw in jobs]
+        for origin, n, f in futs:
+            b, _ = f.result()
+            out += [(ops, n, origin) for ops in b]
     for (n, length, count) in py:
         for _ in range(count):
             out.append((C.py_behaviour(kind, weighted, n, length, rng), n, "harness-biased"))
     return out
 
 
-def run_container(prop, kind, tier, seed, cc=False, own_clauses=None, foreign=CC_CLAUSES, extra=None,
-                  res=None, finish=True, do_explore=True):
+def run_container(prop, kind, tier, seed, cc=False, own_clauses=None, foreign=CC_CLAUSES, plan=None,
+                  res=None, finish=True, do_explore=True, queries=True, full=True, scale=1.0,
+                  exhaustive_derive=True, own_ops=None, always_own=(), extra_behaviours=None):
+    """own_clauses: only these clause names are verdict-bearing for `prop`;
+    own_ops: only rejections on events of these call kinds (or with a clause in always_own)"""
     res = res or Result(prop, tier, seed, "model_checking")
     if do_explore:
         explore(res, kind, tier)
     all_traces, all_meta = [], []
     per_origin = {}
+    T0 = time.time()
+    tgen = trep = 0.0
+    import concurrent.futures as cf
+    t1 = time.time()
+    with cf.ThreadPoolExecutor(max_workers=2) as ex:
+        gen = {w: ex.submit(behaviours, kind, w, tier, seed) for w in (True, False)}
+        gen = {w: f.result() for w, f in gen.items()}
+    tgen = time.time() - t1
     for weighted in (True, False):
-        behs = behaviours(kind, weighted, tier, seed)
+        behs = gen[weighted]
+        if scale < 1.0:
+            rr = random.Random(seed)
+            behs = rr.sample(behs, max(10, int(len(behs) * scale)))
+        if extra_behaviours:
+            behs += extra_behaviours(kind, weighted, tier, seed)
         by_n = {}
         for ops, n, origin in behs:
             by_n.setdefault(n, []).append((ops, origin))
             per_origin[origin] = per_origin.get(origin, 0) + 1
+        t1 = time.time()
         for n, lst in by_n.items():
             fams = ("ident", "sparse", "str", "zero")
             traces, meta = C.replay_many(kind, weighted, [o for o, _ in lst], n, families=fams,
-                                         seed=seed + n, full=True, cc=cc, copies=True, extra=extra)
+                                         seed=seed + n, full=full, cc=cc, copies=True, queries=queries,
+                                         plan=plan, exhaustive_derive=exhaustive_derive)
             for m, (_, origin) in zip(meta, lst):
                 m.update({"weighted": weighted, "n": n, "origin": origin, "kind": kind})
             all_traces += traces
             all_meta += meta
+        trep += time.time() - t1
+    t1 = time.time()
     v = C.validate(kind, all_traces, procs=8, per_batch=max(20, len(all_traces) // 12 + 1))
-    judge(res, prop, kind, all_traces, all_meta, v, own_clauses, foreign)
-    res.cov(traces_validated_against_impl=len(all_traces), events=v["events"],
-            validator_states=v["states"], behaviours_by_origin=per_origin)
+    print("[%s %s] generate %.1fs replay %.1fs validate %.1fs (%d traces, %d events)" % (
+        prop, kind, tgen, trep, time.time() - t1, len(all_traces), v["events"]), file=sys.stderr)
+    judge(res, prop, kind, all_traces, all_meta, v, own_clauses, foreign, own_ops, always_own)
+    res.cov(traces_validated_against_impl=len(all_traces), events=v["events"], validator_states=v["states"])
+    bo = res.coverage.setdefault("behaviours_by_origin", {})
+    for k_, v_ in per_origin.items():
+        bo[kind + ":" + k_] = bo.get(kind + ":" + k_, 0) + v_
+    kinds_of_events = res.coverage.setdefault("events_by_call", {})
+    for t in all_traces:
+        for e in t:
+            kinds_of_events[e["op"]["op"]] = kinds_of_events.get(e["op"]["op"], 0) + 1
     if all_traces:
         t = all_traces[len(all_traces) // 2]
         res.sample({"kind": kind, "labels": all_meta[len(all_traces) // 2]["labels"],
@@ -121,11 +171,13 @@ def run_container(prop, kind, tier, seed, cc=False, own_clauses=None, foreign=CC
     return res.finish() if finish else res
 
 
-def judge(res, prop, kind, traces, meta, v, own_clauses=None, foreign=()):
+def judge(res, prop, kind, traces, meta, v, own_clauses=None, foreign=(), own_ops=None, always_own=()):
     first = {}
     other_prop = 0
     for (t, l, failed) in v["rejects"]:
         mine = [c for c in failed if c not in foreign] if own_clauses is None else [c for c in failed if c in own_clauses]
+        if own_ops is not None and traces[t][l]["op"]["op"] not in own_ops:
+            mine = [c for c in mine if c in always_own]
         if not mine:
             other_prop += 1
             continue
